@@ -24,6 +24,10 @@ type Rule struct {
 	Nth    int    `json:"nth"`    // 1-based occurrence of that code (0 = every)
 	Action string `json:"action"` // fail | silent | late | dup | close | failmsg | lockconflict
 	Msg    string `json:"msg,omitempty"`
+	// Status (branch report only): the rule applies to, and Nth counts, only
+	// requests with this branch status
+	Status     byte `json:"status,omitempty"`
+	statusBase int
 }
 
 const (
@@ -102,14 +106,15 @@ type TC struct {
 	nextBranch int64
 	nextMsgID  int32
 
-	Globals map[string]*Global
-	Order   []string          // xids in begin order
-	Locks   map[string]string // resource^table^pk -> xid
-	Log     []Rec
-	Rules   []Rule
-	counts  map[int]int
-	sess    map[int]*sessState
-	pending map[int32]*pendingP2
+	Globals      map[string]*Global
+	Order        []string          // xids in begin order
+	Locks        map[string]string // resource^table^pk -> xid
+	Log          []Rec
+	Rules        []Rule
+	counts       map[int]int
+	statusCounts map[[2]int]int
+	sess         map[int]*sessState
+	pending      map[int32]*pendingP2
 
 	// Hook lets an engine take over a request entirely (return true = handled).
 	Hook func(sess int, f *Frame) bool
@@ -205,16 +210,50 @@ func (tc *TC) reply(sess int, req *Frame, m *Msg, extraDelay time.Duration) {
 	tc.Sim.Post(fmt.Sprintf("tc-reply|%d|%010d", sess, uint32(req.ID)), d, "", func() { tc.send(sess, f) })
 }
 
-func (tc *TC) rule(code int) *Rule {
+func (tc *TC) rule(code int) *Rule { return tc.ruleFor(code, nil) }
+
+// ruleFor finds the rule for a request. A rule with a Status only counts (and
+// matches) requests carrying that status (branch reports: phase-one done vs failed).
+func (tc *TC) ruleFor(code int, m *Msg) *Rule {
 	tc.counts[code]++
 	n := tc.counts[code]
+	if m != nil && m.Status != 0 {
+		if tc.statusCounts == nil {
+			tc.statusCounts = map[[2]int]int{}
+		}
+		tc.statusCounts[[2]int{code, int(m.Status)}]++
+	}
 	for i := range tc.Rules {
 		r := &tc.Rules[i]
-		if r.Code == code && (r.Nth == 0 || r.Nth == n) {
+		if r.Code != code {
+			continue
+		}
+		if r.Status != 0 {
+			if m == nil || m.Status != r.Status {
+				continue
+			}
+			sn := tc.statusCounts[[2]int{code, int(m.Status)}] - r.statusBase
+			if r.Nth == 0 || r.Nth == sn {
+				return r
+			}
+			continue
+		}
+		if r.Nth == 0 || r.Nth == n {
 			return r
 		}
 	}
 	return nil
+}
+
+// StatusCountOf reports how many requests of code carried status so far.
+func (tc *TC) StatusCountOf(code int, status byte) int {
+	return tc.statusCounts[[2]int{code, int(status)}]
+}
+
+// ArmStatusRule makes a rule with a Status count from now on.
+func (tc *TC) ArmStatusRule(r Rule) Rule {
+	r.statusBase = tc.StatusCountOf(r.Code, r.Status)
+	return r
 }
 
 // ParseLockKeys splits an AT lock key string into "table:pk" row keys the way
@@ -288,7 +327,7 @@ func (tc *TC) OnFrame(sess int, f *Frame) {
 		tc.onBranchAnswer(sess, f)
 		return
 	}
-	r := tc.rule(m.Code)
+	r := tc.ruleFor(m.Code, m)
 	act := ""
 	if r != nil {
 		act = r.Action
